@@ -95,22 +95,42 @@ pub fn drive_c15(args: &[String]) {
         for (b, s) in fam { list.push((s, true, Some(b))); }
     }
     for n in 1..=max3 { for s in domain3d(n) { if sample >= 1000 || rng.gen_range(0..1000) < sample { list.push((s, false, None)); } } }
-    for (s, is_corpus, prism_of) in &list {
-        let mut e = json!({"ev": "pseudo_toroidal", "sym": dsym_json(s), "corpus": is_corpus});
-        if let Some(b) = prism_of { e["prism_of"] = b.clone(); }
-        pending(&e);
-        match ptc_record(s) {
-            Ok((r, _)) => { for (k, v) in r.as_object().unwrap() { e[k] = v.clone(); } }
-            Err(m) => { e["panic"] = json!(m); }
-        }
-        let mut vs = vec![];
-        let n = s.size();
-        let mut variant = |how: &str, t: &PartialDSym| { let mut w = json!({"how": how}); if how == "dual" { w["sym"] = dsym_json(t); } match ptc_record(t) { Ok((r, _)) => { w["found"] = r["found"].clone(); w["sheets"] = r["sheets"].clone(); } Err(m) => { w["panic"] = json!(m); } } vs.push(w); };
-        if n >= 2 { variant("renumber", &renumber(s, &rand_perm(n, &mut rng))); }
-        variant("dual", &dual(s));
-        e["variants"] = json!(vs);
-        sink.emit(e);
-    }
+    // prisms over 2-D symbols of EVERY orbifold type (spherical, euclidean, hyperbolic; one base per orbifold symbol):
+    // inputs with 9-24 chambers whose groups are products with Z; nothing is claimed about them beyond the statement
+    let over = arg_usize(args, "--prism-over", 0);
+    let mut over_list: Vec<(PartialDSym, Value)> = vec![];
+    if over > 0 { for (_, b) in prism_bases(over) { if let Ok(p) = catch(|| prism_over(&b)) { over_list.push((p, dsym_json(&b))); } } }
+    let over_cap = arg_usize(args, "--prism-over-cap", 1000);
+    if over_list.len() > over_cap { over_list.shuffle(&mut rng); over_list.truncate(over_cap); }
+    for (p, b) in over_list { list.push((p, false, Some(json!({"over": b})))); }
+    // renumberings are drawn here (seeded, in order); the calls themselves run in 12 threads and are recorded in order
+    let perms: Vec<Vec<usize>> = list.iter().map(|(s, _, _)| rand_perm(s.size(), &mut rng)).collect();
+    let items: Vec<(usize, &(PartialDSym, bool, Option<Value>))> = list.iter().enumerate().collect();
+    let events: Vec<Value> = std::thread::scope(|sc| {
+        let perms = &perms;
+        let nthr = 12usize;
+        let hs: Vec<_> = (0..nthr).map(|t| { let items = &items; sc.spawn(move || {
+            items.iter().filter(|(k, _)| k % nthr == t).map(|(k, (s, is_corpus, prism_of))| {
+                let mut e = json!({"ev": "pseudo_toroidal", "sym": dsym_json(s), "corpus": is_corpus});
+                if let Some(b) = prism_of { if b.get("over").is_some() { e["prism_over"] = b["over"].clone(); } else { e["prism_of"] = b.clone(); } }
+                match ptc_record(s) {
+                    Ok((r, _)) => { for (k, v) in r.as_object().unwrap() { e[k] = v.clone(); } }
+                    Err(m) => { e["panic"] = json!(m); }
+                }
+                let mut vs = vec![];
+                let n = s.size();
+                let mut variant = |how: &str, t: &PartialDSym| { let mut w = json!({"how": how}); if how == "dual" { w["sym"] = dsym_json(t); } match ptc_record(t) { Ok((r, _)) => { w["found"] = r["found"].clone(); w["sheets"] = r["sheets"].clone(); } Err(m) => { w["panic"] = json!(m); } } vs.push(w); };
+                if n >= 2 { variant("renumber", &renumber(s, &perms[*k])); }
+                variant("dual", &dual(s));
+                e["variants"] = json!(vs);
+                (*k, e)
+            }).collect::<Vec<_>>()
+        }) }).collect();
+        let mut all: Vec<(usize, Value)> = hs.into_iter().flat_map(|h| h.join().unwrap()).collect();
+        all.sort_by_key(|x| x.0);
+        all.into_iter().map(|x| x.1).collect()
+    });
+    for e in events { sink.emit(e); }
     sink.flush();
     println!("{}", json!({"events": sink.n}));
 }
@@ -310,11 +330,20 @@ pub fn drive_c17(args: &[String]) {
         // deep in the tree already: the cover tree of these is not followed further
         for (b, s) in fam { list.push_back((s, true, usize::MAX / 2, Some(b))); }
     }
+    // prisms over 2-D symbols of every orbifold type (one base per orbifold symbol): mostly NON-euclidean inputs with
+    // 9-24 chambers whose groups are products with Z (nothing is claimed about them beyond the statement)
+    let over = arg_usize(args, "--prism-over", 0);
+    if over > 0 {
+        let mut fam: Vec<(PartialDSym, Value)> = prism_bases(over).into_iter().filter_map(|(_, b)| catch(|| prism_over(&b)).ok().map(|p| (p, dsym_json(&b)))).collect();
+        let cap = arg_usize(args, "--prism-over-cap", 40);
+        if fam.len() > cap { fam.shuffle(&mut rng); fam.truncate(cap); }
+        for (p, b) in fam { list.push_back((p, false, usize::MAX / 2, Some(json!({"over": b})))); }
+    }
     for n in 1..=max3 { for s in domain3d(n) { list.push_back((s, false, 0, None)); } }
     let mut seen: std::collections::HashSet<String> = Default::default();
     while let Some((s, is_corpus, depth, prism_of)) = list.pop_front() {
         let mut e = json!({"ev": "euclidicity", "sym": dsym_json(&s), "corpus": is_corpus, "depth": depth.min(99)});
-        if let Some(b) = &prism_of { e["prism_of"] = b.clone(); }
+        if let Some(b) = &prism_of { if b.get("over").is_some() { e["prism_over"] = b["over"].clone(); } else { e["prism_of"] = b.clone(); } }
         pending(&e);
         let v = verdict(&s);
         // symbols rejected outright by the invariant filter are kept as a seeded sample only
